@@ -24,7 +24,7 @@ static void fault(void)
 }
 static int zcall(zsym *s, uint8_t *p, size_t n, int *rc)
 {
-	if (V_TRY(20)) { *rc = s->fn(p, n); V_END; s->calls++; return 0; }
+	if (V_TRY(20)) { *rc = (int) V_ABI(s->fn, p, n); V_END; s->calls++; return 0; }
 	fault(); return -1;
 }
 /* surroundings of the region inside the slot: set to `v` (up to 96 bytes each side) */
